@@ -285,6 +285,48 @@ pub fn render_layout(l: &Layout, o: &RenderOpts) -> String {
     for i in &l.inners {
         s.push_str(&render_layout(i, o));
     }
+    if l.decoys != 0 && (!l.enums.is_empty() || !l.inners.is_empty()) {
+        s.push_str("/// same-named types of other widths; never used\npub mod decoy {\n    #![allow(dead_code, unused_imports)]\n    use arbitrary_int::*;\n");
+        for e in &l.enums {
+            let bits = if e.bits < 64 { e.bits + 1 } else { e.bits - 1 };
+            let d = EnumDecl {
+                name: e.name.clone(),
+                bits,
+                variants: vec![Variant { name: "D0".into(), disc: Disc::Lit { value: 0, radix: 10, underscore: false }, cfg: Cfg::None, style: 0 }],
+                exhaustive: Exh::False,
+                colon: false,
+                qualified: false,
+                args_swapped: false,
+            };
+            for line in render_enum(&d, o).lines() {
+                s.push_str("    ");
+                s.push_str(line);
+                s.push('\n');
+            }
+        }
+        for i in &l.inners {
+            let bits = if i.base_bits < 128 { i.base_bits + 1 } else { i.base_bits - 1 };
+            let d = Layout {
+                name: i.name.clone(),
+                base_bits: bits,
+                default: None,
+                default_colon: false,
+                debug: false,
+                fields: vec![Field { name: "z".into(), kw_bit: true, list: false, ranges: vec![Rng::bit(0)], array: None, ty: FieldTy::Bool, access: Access::RW, arg_order: 0, opt_path: 0, huge: None, zero_pad: false }],
+                enums: vec![],
+                inners: vec![],
+                debug_first: false,
+                vis: 0,
+                decoys: 0,
+            };
+            for line in render_struct(&d, o).lines() {
+                s.push_str("    ");
+                s.push_str(line);
+                s.push('\n');
+            }
+        }
+        s.push_str("}\n");
+    }
     s.push_str(&render_struct(l, o));
     s
 }
